@@ -21,8 +21,19 @@ def norm(v):
     if isinstance(v, (list, tuple)):
         return [norm(x) for x in v]
     if isinstance(v, dict):
-        return {str(k): norm(x) for k, x in v.items()}
+        # a tracking read creates an entry holding None: not an assigned value
+        return {str(k): norm(x) for k, x in v.items() if x is not None}
     return v
+
+
+def norm_vars(d):
+    out = {}
+    for k, v in d.items():
+        nv = norm(v)
+        if isinstance(v, dict) and not nv:
+            continue
+        out[k] = nv
+    return out
 
 
 def real_run(prog, rows, agg, fname="p.csv", policy=("collect",), method="collect"):
@@ -60,6 +71,17 @@ def model_trace(prog, rows, emulate=()):
 def compare(real, mtrace, what=("match", "vars", "counters", "valid")):
     """first divergence between LineEvents and model trace, or None"""
     evs = real["rec"].lines
+    # conservation monitors, independent of the model
+    seen = 0
+    for ev in evs:
+        if ev["considered"]:
+            seen += 1
+        if ev["scan"] != seen:
+            return {"kind": "conservation-scan_count", "pln": ev["pln"], "scan_count": ev["scan"], "lines_offered": seen}
+        if ev.get("dmatch", 0) not in (0, 1):
+            return {"kind": "conservation-match_count", "pln": ev["pln"], "delta": ev.get("dmatch")}
+        if ev.get("dmatch", 0) == 1 and not ev["considered"]:
+            return {"kind": "conservation-match-unscanned", "pln": ev["pln"]}
     if len(evs) < len(mtrace):
         return {"kind": "run-ended-early", "real_lines": len(evs), "model_lines": len(mtrace), "at": len(evs)}
     for i, mt in enumerate(mtrace):
@@ -70,7 +92,7 @@ def compare(real, mtrace, what=("match", "vars", "counters", "valid")):
             return {"kind": "considered", "pln": mt["pln"], "real": ev["considered"], "model": mt["considered"]}
         if "match" in what and bool(ev["ret"]) != mt["matched"]:
             return {"kind": "match", "pln": mt["pln"], "line": ev["line"], "real": ev["ret"], "model": mt["matched"]}
-        if "vars" in what and norm(ev["vars"]) != norm(mt["vars"]):
+        if "vars" in what and norm_vars(ev["vars"]) != norm_vars(mt["vars"]):
             return {"kind": "vars", "pln": mt["pln"], "line": ev["line"], "real": ev["vars"], "model": mt["vars"]}
         if "counters" in what and (ev["scan"], ev["match"]) != (mt["scan"], mt["match"]):
             return {"kind": "counters", "pln": mt["pln"], "real": [ev["scan"], ev["match"]], "model": [mt["scan"], mt["match"]]}
@@ -129,7 +151,9 @@ def decide(prog, rows, agg, what, known_switches=()):
     witness["divergence"] = d
     # attribute to a known mechanism only if emulating it reproduces the observation exactly
     cand = [k for k in m.reached if k in known_switches]
-    if cand:
+    for _round in range(3):
+        if not cand:
+            break
         try:
             m2, mtrace2 = model_trace(prog, rows, emulate=cand)
             d2 = compare(real, mtrace2, what)
@@ -138,6 +162,11 @@ def decide(prog, rows, agg, what, known_switches=()):
             if d2 is None:
                 return "known", (sorted(cand)[0], witness)
             witness["residual_after_emulating"] = {"emulated": cand, "divergence": d2}
+            # emulating one defect can bring the run to another known mechanism: close over them
+            more = [k for k in m2.reached if k in known_switches and k not in cand]
+            if not more:
+                break
+            cand = cand + more
         except (model.Unspec, model.ExpErr):
             # the known defect steers the run into a corner the docs leave undefined: attributed
             return "known", (sorted(cand)[0], witness)
